@@ -68,6 +68,8 @@ pub struct Ctx {
     pub sample_every: u64,
     /// breadcrumb file: the case being executed, rewritten before every case
     pub crumb: Option<std::fs::File>,
+    /// violations recorded per signature (at most a handful of each are kept)
+    pub per_sig: HashMap<String, u64>,
     /// cases of the current family tolerate leaks (lying iterators under the sampled runner)
     pub leaks_ok_default: bool,
     /// accumulate per-configuration observation digests (C19)
@@ -104,7 +106,7 @@ impl Ctx {
         if let Some((f, c, n)) = &self.only {
             return *f == self.family && *c == cfg.name && *n == o;
         }
-        if self.viols.len() >= self.max_viols {
+        if self.per_sig.len() >= self.max_viols {
             return false;
         }
         let mine = (o as usize) % self.nshards == self.shard;
@@ -121,7 +123,7 @@ impl Ctx {
         }
         let o = self.ordinal;
         self.ordinal += 1;
-        if self.viols.len() >= self.max_viols {
+        if self.per_sig.len() >= self.max_viols {
             return false;
         }
         let key = format!("{}|{:?}|{}", self.family, cfg.mem, sig);
@@ -166,6 +168,11 @@ impl Ctx {
         if self.relevant(kind) {
             if self.verbose {
                 eprintln!("VIOL {kind} {opsig}: {detail}\n  in {desc}");
+            }
+            let c = self.per_sig.entry(format!("{kind}:{opsig}")).or_insert(0);
+            *c += 1;
+            if *c > 6 {
+                return;
             }
             self.viols.push(ViolRec {
                 kind: kind.to_string(),
